@@ -53,7 +53,7 @@ func (vc *VC) heapWF(name string, h Term, alloc Term) Term {
 		// map sizes are non-negative; the nil map (reference 0) is empty
 		for _, m := range vc.S.maps {
 			if "MapHeap_"+strings.Trim(m.name, "|")[7:] == name {
-				ks := vc.S.sortOf(m.k)
+				ks := vc.S.keySort(m.k)
 				// values stored under present keys are well-formed Go values: references below the
 				// allocation counter, slice shapes, interface typing
 				vcell := fmt.Sprintf("(select (%s (select %s wf!r)) wf!k)", m.vals(), h)
